@@ -6,6 +6,8 @@ import (
 	"bytes"
 	"encoding/hex"
 	"fmt"
+	"github.com/taurusgroup/multi-party-sig/pkg/hash"
+	"github.com/taurusgroup/multi-party-sig/pkg/party"
 	"math/big"
 	"reflect"
 	"runtime"
@@ -242,4 +244,32 @@ func stackString() string {
 	b := make([]byte, 8192)
 	n := runtime.Stack(b, false)
 	return string(b[:n])
+}
+
+// FSContext returns the Fiat-Shamir context of the handler's current round - the digest of the hash
+// state from which every proof challenge, commitment and echo hash of the session is derived - and
+// the context as specialised for one party (HashForID). nil if it cannot be read.
+func FSContext(h interface{}, id party.ID) (ctx, ctxFor []byte) {
+	defer func() { _ = recover() }()
+	rv := reflect.ValueOf(h)
+	for rv.Kind() == reflect.Ptr || rv.Kind() == reflect.Interface {
+		rv = rv.Elem()
+	}
+	f := rv.FieldByName("currentRound")
+	if !f.IsValid() {
+		f = rv.FieldByName("round")
+	}
+	if !f.IsValid() {
+		return nil, nil
+	}
+	f = reflect.NewAt(f.Type(), unsafe.Pointer(f.UnsafeAddr())).Elem()
+	if r, ok := f.Interface().(round.Session); ok {
+		ctx = r.Hash().Sum()
+		if hf, ok := f.Interface().(interface {
+			HashForID(party.ID) *hash.Hash
+		}); ok {
+			ctxFor = hf.HashForID(id).Sum()
+		}
+	}
+	return ctx, ctxFor
 }
